@@ -22,6 +22,8 @@ def dispatch (prop : String) (ins outs : List String) : Verdict :=
   | "C17" => C17.run ins outs
   | "C16" => C16.run ins outs
   | "C11" => C11.run ins outs
+  | "C03" => C03.run ins outs
+  | "C09" => C09.run ins outs
   | _ => .bad ("unknown property " ++ prop)
 
 partial def loop (h : IO.FS.Stream) (out : IO.FS.Stream) (n : Nat) : IO Unit := do
